@@ -53,6 +53,78 @@ func fail(fset *token.FileSet, pos token.Pos, what string) {
 	os.Exit(2)
 }
 
+// syntactic fallback for range expressions the lenient type check cannot type (anything that
+// depends on an imported package): name -> key type of a map declaration / names declared with
+// a non-map type.  A name declared both ways is ambiguous and fails loudly.
+var mapDecl = map[string]string{}
+var nonMapDecl = map[string]bool{}
+
+func exprString(fset *token.FileSet, e ast.Expr) string {
+	var b bytes.Buffer
+	format.Node(&b, fset, e)
+	return b.String()
+}
+
+func collectDecls(fset *token.FileSet, f *ast.File) {
+	note := func(names []*ast.Ident, t ast.Expr) {
+		if t == nil {
+			return
+		}
+		for _, n := range names {
+			if mt, ok := t.(*ast.MapType); ok {
+				mapDecl[n.Name] = exprString(fset, mt.Key)
+			} else {
+				nonMapDecl[n.Name] = true
+			}
+		}
+	}
+	mapOf := func(e ast.Expr) *ast.MapType {
+		switch v := e.(type) {
+		case *ast.CallExpr:
+			if id, ok := v.Fun.(*ast.Ident); ok && id.Name == "make" && len(v.Args) > 0 {
+				if mt, ok := v.Args[0].(*ast.MapType); ok {
+					return mt
+				}
+			}
+		case *ast.CompositeLit:
+			if mt, ok := v.Type.(*ast.MapType); ok {
+				return mt
+			}
+		}
+		return nil
+	}
+	ast.Inspect(f, func(n ast.Node) bool {
+		switch x := n.(type) {
+		case *ast.Field:
+			note(x.Names, x.Type)
+		case *ast.ValueSpec:
+			note(x.Names, x.Type)
+			for i, v := range x.Values {
+				if i < len(x.Names) && x.Type == nil {
+					if mt := mapOf(v); mt != nil {
+						mapDecl[x.Names[i].Name] = exprString(fset, mt.Key)
+					}
+				}
+			}
+		case *ast.AssignStmt:
+			if x.Tok == token.DEFINE {
+				for i, v := range x.Rhs {
+					if i < len(x.Lhs) {
+						if id, ok := x.Lhs[i].(*ast.Ident); ok {
+							if mt := mapOf(v); mt != nil {
+								mapDecl[id.Name] = exprString(fset, mt.Key)
+							}
+						}
+					}
+				}
+			}
+		}
+		return true
+	})
+}
+
+var typedRanges = map[string]bool{}
+
 func typeCheck(srcDir string, names []string) {
 	fset := token.NewFileSet()
 	var files []*ast.File
@@ -62,6 +134,7 @@ func typeCheck(srcDir string, names []string) {
 			continue
 		}
 		files = append(files, f)
+		collectDecls(fset, f)
 	}
 	if len(files) == 0 {
 		return
@@ -72,9 +145,10 @@ func typeCheck(srcDir string, names []string) {
 	for _, f := range files {
 		ast.Inspect(f, func(n ast.Node) bool {
 			if rs, ok := n.(*ast.RangeStmt); ok {
-				if tv, ok := info.Types[rs.X]; ok && tv.Type != nil {
+				if tv, ok := info.Types[rs.X]; ok && tv.Type != nil && tv.Type != types.Typ[types.Invalid] {
 					pos := fset.Position(rs.Pos())
 					key := fmt.Sprintf("%s:%d", filepath.Base(pos.Filename), pos.Line)
+					typedRanges[key] = true
 					switch mt := tv.Type.Underlying().(type) {
 					case *types.Map:
 						mapRanges[key] = types.TypeString(mt.Key(), func(p *types.Package) string {
@@ -392,6 +466,23 @@ func (r *rw) stmt(s ast.Stmt) []ast.Stmt {
 		}
 		if keyS, ok := mapRanges[key]; ok {
 			return r.mapRange(x, keyS)
+		}
+		if !typedRanges[key] {
+			// untyped range expression: decide by declaration names
+			name := ""
+			switch e := x.X.(type) {
+			case *ast.Ident:
+				name = e.Name
+			case *ast.SelectorExpr:
+				name = e.Sel.Name
+			}
+			if keyS, ok := mapDecl[name]; ok {
+				if nonMapDecl[name] {
+					fail(r.fset, x.Pos(), "range over "+name+": cannot decide whether it is a map (declared both as a map and as something else, and its type depends on an imported package)")
+				}
+				stats["maprange_by_name"]++
+				return r.mapRange(x, keyS)
+			}
 		}
 	case *ast.SwitchStmt:
 		r.exprs(x.Init)
